@@ -75,6 +75,10 @@ class PDFParser(PSStackParser[Union[PSKeyword, PDFStream, PDFObjRef, None]]):
 
         elif token is self.KEYWORD_STREAM:
             # stream object
+            if not self.curstack:
+                # e.g. a (damaged) offset that lands between a stream
+                # dictionary and its data
+                raise PDFSyntaxError("'stream' without a dictionary: pos=%r" % pos)
             ((_, dic),) = self.pop(1)
             dic = dict_value(dic)
             objlen = 0
